@@ -531,4 +531,26 @@ def clause_g(c: Check):
                 c.expect(not changed, 'C17-g', 'layer-method-keeps-state/%s.%s' % (k.key, mname),
                          '%s.%s changes %s of the object it is called on: a later resolution / application / case sees what '
                          'an earlier one left behind' % (k.name, mname, ', '.join('self.' + a for a in changed)), f.loc())
+                args_changed = sorted(pu.summary(f))
+                c.expect(not args_changed, 'C17-g', 'layer-method-changes-arguments/%s.%s' % (k.key, mname),
+                         '%s.%s changes %s (or an object looked up in it): the symbol table entries of a suite-level '
+                         'definition are shared by the cases of the suite, so what is stored there during one case is '
+                         'seen by the next' % (k.name, mname, ', '.join(args_changed)), f.loc())
     c.floor('C17-g', 'resolve methods of symbol-dependent values analysed', n, 60)
+    # the processors of a suite (reader, preprocessor, parser, transformer, executor) are built once per suite and
+    # applied to every case: `apply` keeps no state in the object
+    n_ap = 0
+    for name in ix.all_module_names():
+        if not name.startswith('exactly_lib.processing'):
+            continue
+        for k in ix.module(name).all_classes:
+            f = k.methods.get('apply')
+            if f is None or not f.self_name or util.is_abstract_body(f):
+                continue
+            n_ap += 1
+            changed = pu.self_mutations(f)
+            c.expect(not changed, 'C17-g', 'processor-keeps-no-state/%s.apply' % k.key,
+                     '%s.apply changes %s of the processor, which is shared by all cases of the suite: the n-th case is '
+                     'processed with what the cases before it left behind' % (k.name, ', '.join('self.' + a for a in changed)),
+                     f.loc())
+    c.floor('C17-g', 'apply methods of the case processors analysed', n_ap, 5)
